@@ -95,7 +95,7 @@ NEEDS = {
     "seed_C02g": ("C02", "forcing split over several int16-packed files with a different scale_factor / add_offset per file + a run crossing a file boundary (packing attributes read for the first file only)", ""),
     "seed_C04g": ("C14", "[asked for as a change breaking C04; the trigger is outside C04's quantifier and inside C14's] discrete release file listed site by site: at least three release times whose order of first appearance is neither ascending nor descending (groupby(sort=False) + a reverse test on the first and last step only): whole row groups released at another group's step",
                   "the trigger lies outside C04's quantifier (tables sorted in simulation order) and C04's check is silent (its constructor units are UNDECIDED on the new code shape); it is inside C14's (all permutations of the release rows). MISSED by C14's first run: the independence sweep permuted rows of two release times only; a three-time site-by-site listing was added to `independence_bounded` (bounded detection by C14)"),
-    "seed_C06g": ("C06", "a state that still holds dead particles when Output.write is called: a user forcing module killing particles in update(), or the output module used as a library (compactify dropped from write)", ""),
+    "seed_C06g": ("C06", "a state that still holds dead particles when Output.write is called: a user forcing module killing particles in update(), or the output module used as a library (compactify dropped from write)", "caught by the bounded whole-run check; the two Output.write units did not finish within the 900 s unit limit while all 16 cores were busy with other runs (UNDECIDED)"),
     "seed_C07g": ("C07", "sparse layout + a scheduled output time at which no particle is alive, e.g. first release after the start (early return from write: the record is skipped, file boundaries shift)", ""),
     "seed_C10g": ("C10", "time-reversed run + a release time (or forcing frame) that is not a whole number of dt from the start (time2step rounds up instead of mirroring the floor)", ""),
     "seed_C14g": ("C03", "[asked for as a change breaking C14; the slip is in the decoding of the forcing time axis and breaks C03 first] forcing time axis in float days (values not exactly representable) + time-varying current + absolute times where a frame lies a fraction of a microsecond below its whole second (array-wise decoding truncates where cftime rounds: the frame lands one step early; which frames depends on the absolute time, so a whole-step shift changes the trajectories)",
